@@ -234,7 +234,15 @@ func VerifC08Challenge() {
 	doc := vDoc(vSwagger(d))
 	api := untyped.NewAPI(doc)
 	vRec = &vRecorder{}
+	// whatever class of error the credential check fails with
+	errClass := zv.Choose("callback-error", 3)
 	api.RegisterAuth("basic", security.BasicAuthRealm(realm, func(u, p string) (interface{}, error) {
+		switch errClass {
+		case 1:
+			return nil, errors.New(http.StatusForbidden, "locked out")
+		case 2:
+			return nil, stderrors.New("directory unreachable")
+		}
 		return nil, errors.Unauthenticated("basic")
 	}))
 	api.RegisterOperation("GET", "/s", runtime.OperationHandlerFunc(func(params interface{}) (interface{}, error) {
